@@ -93,6 +93,17 @@ def vec_of_unit(model, unit):
 
 
 # ---- generated models ----------------------------------------------------------------------------------------
+def resolve_index(vi, objs, prev):
+    """index of the variable a conversion refers to: a number (modulo the current count), or 'prev' = the variable the
+    previous conversion returned (the first variable when there is none)"""
+    if vi == 'prev':
+        for k, o in enumerate(objs):
+            if o is prev:
+                return k
+        return 0
+    return vi % len(objs)
+
+
 def gen_spec(seed):
     """a unit-consistent model: time, states with ODEs, input constants (initial value, no equation), parameter constants
     (c = quantity), computed variables; right-hand sides are sums of products k * v (* w), optionally exp of a
@@ -410,9 +421,10 @@ def conversion_coherence(case):
                                 {'conv': j}))
     lookups(-1)
     cur = list(objs)
+    prev_new = None
     for j, (vi, ui, is_input, move) in enumerate(case['convs']):
         reif = Reified(m, cur)
-        v = vi % len(cur)
+        v = resolve_index(vi, cur, prev_new)
         vec = reif.vars[v][1]
         fam = c06.family_of(vec) if vec is not None else None
         if not fam:
@@ -421,8 +433,8 @@ def conversion_coherence(case):
         lookups(j - 0.5)
         before = (c08.obs(m), [[x.name, x.initial_value, x.cmeta_id, str(x.units)] for x in m.variables()])
         try:
-            m.convert_variable(cur[v], target, DataDirectionFlow.INPUT if is_input else DataDirectionFlow.OUTPUT,
-                               move_annotations=bool(move))
+            prev_new = m.convert_variable(cur[v], target, DataDirectionFlow.INPUT if is_input else DataDirectionFlow.OUTPUT,
+                                          move_annotations=bool(move))
         except Exception as e:
             # a conversion that raises is a rejected edit: it must leave every observable as it was
             after = (c08.obs(m), [[x.name, x.initial_value, x.cmeta_id, str(x.units)] for x in m.variables()])
